@@ -27,13 +27,17 @@ ASSUMPTIONS = [
     "chain lengths N = 2..5 (quick) / 2..7 (thorough); operator charges symbolic",
 ]
 import contracts.ops_algebra as OA
+import contracts.c07_genmpo as GM
+from contracts.c07_genmpo import h_generate_mpo_product, h_generate_mpo_rejects
 from contracts.ops_algebra import h_onsite_algebra, h_operator_dicts
 
 BOUNDED_HARNESSES = {'h_onsite_algebra', 'h_operator_dicts'}
 
+FUNCTIONS = FUNCTIONS + GM.FUNCTIONS
 NOT_DECIDED = [
-    "generate_mpo / Generator / latex2term produce MPOs whose dense matrix is the Jordan-Wigner sum (SVD compression + string "
-    "bookkeeping as a whole); measure_1site, rdm, sample probabilities; dense equality of any expectation value (floating point)",
+    "generate_mpo for sums of terms (M > 1: block + SVD compression of the term index), Generator / latex2term parsing; "
+    "proved: the single-term exit, which shares ordering sign, same-site grouping, virtual charges and strings with the general case",
+    "measure_1site, rdm, sample probabilities; dense equality of any expectation value (floating point)",
     "on-site (anti)commutation relations of the predefined operator families: only the bounded stand-in (h_onsite_algebra, "
     "h_operator_dicts: exhaustive over families x symmetries, floating point) -- not a proof",
 ]
@@ -232,7 +236,7 @@ def h_measure_nsite(V, N, symname, fermionic, sites):
 
 
 def units(tier):
-    U = OA.units_c07(tier)
+    U = OA.units_c07(tier) + GM.units(tier)
     th = tier == 'thorough'
     Ns = range(2, (7 if th else 5) + 1)
     for N in Ns:
